@@ -30,7 +30,8 @@ COMPONENTS = {"real": ["Message.parse_headers (allow-list gate, underscore polic
                        "SyncWorker.handle"],
               "stub": ["peer + network (SimSock)", "application (records environ)", "gthread poller/executor (connection driver)"]}
 
-PEERS = [["10.0.0.9", 40001], ["192.168.1.7", 40002], ["::1", 40003], ["127.0.0.1", 40004], ""]
+PEERS = [["10.0.0.9", 40001], ["192.168.1.7", 40002], ["::1", 40003], ["127.0.0.1", 40004], "",
+         ["::1", 40005, 0, 0], ["2001:db8::7", 40006, 0, 0], ["fe80::1", 40007, 0, 2]]      # AF_INET6 peers are 4-tuples
 ALLOW = [["127.0.0.1", "::1"], ["10.0.0.9"], ["*"], ["10.0.0.1", "10.0.0.9"], []]
 FWD = [["SCRIPT_NAME", "PATH_INFO"], ["SCRIPT_NAME", "REMOTE_USER"], ["*"], ["X_FORWARDED_FOR"], []]
 SSH = [{"X-FORWARDED-PROTOCOL": "ssl", "X-FORWARDED-PROTO": "https", "X-FORWARDED-SSL": "on"},
@@ -73,7 +74,19 @@ def make_case(index, rng, tier):
     proxy_mid = None
     if nreq > 1 and rng.randrange(5) == 0:
         proxy_mid = {"before": rng.randrange(1, nreq), "line": "PROXY TCP4 127.0.0.1 10.0.0.1 1111 80"}
-    return {"cfg": cfg, "peer": rng.choice(PEERS), "reqs": reqs, "proxy_line": proxy_line, "proxy_mid": proxy_mid,
+    prev = None
+    if rng.randrange(3) == 0:
+        # history: the same worker served another connection before this one (another peer, possibly with a PROXY line of its own);
+        # nothing of it may show in this connection's environment
+        ppeer = rng.choice(PEERS)
+        listed = [p for p in PEERS if p != "" and p[0] in cfg["proxy_allow_ips"]]
+        if listed and rng.randrange(2):
+            ppeer = rng.choice(listed)           # a peer whose PROXY line is accepted
+        prev = {"peer": ppeer, "proxy_line": ("PROXY TCP4 198.51.100.9 10.0.0.1 7777 80" if cfg["proxy_protocol"] and rng.randrange(4) else None),
+                "reqs": [[["X-Forwarded-Proto", "https"], ["Script-Name", "/app"], ["X-Prev", "p1"]]] * rng.randrange(1, 3)}
+        if rng.randrange(2):
+            proxy_line = None
+    return {"cfg": cfg, "peer": rng.choice(PEERS), "reqs": reqs, "proxy_line": proxy_line, "proxy_mid": proxy_mid, "prev": prev,
             "family": rng.choice(conn.FAMILIES), "keepalive": rng.choice([2, 2, 0])}
 
 
@@ -92,6 +105,16 @@ def run(case, choices):
                         proxy_allow_ips=",".join(c["proxy_allow_ips"]))
     state = conn.AppState()
     worker = conn.make_worker(fam, cfg, conn.make_app(PROG, state))
+    prev = case.get("prev")
+    if prev:
+        pparts = [prev["proxy_line"] + "\r\n"] if prev["proxy_line"] else []
+        for hs in prev["reqs"]:
+            pparts.append("GET /app/page HTTP/1.1\r\n" + "".join("%s: %s\r\n" % (n, v) for n, v in hs) + "\r\n")
+        psock = conn.SimSock("".join(pparts).encode("latin-1"), (), peer=tuple(prev["peer"]) if prev["peer"] != "" else "")
+        conn.serve(worker, fam, psock)
+        res.probes["served_after_another_connection"] += 1
+    calls0 = state.calls
+    env0 = len(state.environs)
     peer = tuple(case["peer"]) if case["peer"] != "" else ""
     parts = []
     if case["proxy_line"]:
@@ -104,25 +127,26 @@ def run(case, choices):
     data = "".join(parts).encode("latin-1")
     sock = conn.SimSock(data, (), peer=peer)
     esc = conn.serve(worker, fam, sock)
-    log.add(fam, "served", (state.calls, len(sock.wire)))
-    ctx = lambda: "family=%s peer=%r cfg=%r proxy_line=%r reqs=%r calls=%d wire=%s" % (
-        fam, peer, c, case["proxy_line"], case["reqs"], state.calls, bsafe(bytes(sock.wire), 120))
+    ncalls = state.calls - calls0
+    log.add(fam, "served", (ncalls, len(sock.wire)))
+    ctx = lambda: "family=%s peer=%r cfg=%r proxy_line=%r reqs=%r calls=%d prev=%r wire=%s" % (
+        fam, peer, c, case["proxy_line"], case["reqs"], ncalls, prev, bsafe(bytes(sock.wire), 120))
     if esc is not None:
         res.violate("C08:%s:exception-escaped" % fam, "handle() let %r escape; %s" % (esc, ctx()))
     proxy_ok = bool(c["proxy_protocol"] and case["proxy_line"] and trust_ref.ip_allowed(peer, c["proxy_allow_ips"]))
-    if case["proxy_line"] and c["proxy_protocol"] and not proxy_ok and state.calls > 0:
+    if case["proxy_line"] and c["proxy_protocol"] and not proxy_ok and ncalls > 0:
         res.violate("C08:%s:proxy-line:untrusted" % fam,
                     "a PROXY line from a peer outside proxy_allow_ips was not refused; %s" % ctx())
-    if case["proxy_line"] and not c["proxy_protocol"] and state.calls > 0:
+    if case["proxy_line"] and not c["proxy_protocol"] and ncalls > 0:
         res.violate("C08:%s:proxy-line:disabled" % fam, "a PROXY line was accepted although proxy_protocol is off; %s" % ctx())
-    if mid and state.calls > mid["before"]:
+    if mid and ncalls > mid["before"]:
         res.violate("C08:%s:proxy-line:mid-connection" % fam,
                     "a PROXY line in front of request %d of the connection (only the first request may carry one) did not end the "
-                    "connection: %d requests reached the application; %s" % (mid["before"], state.calls, ctx()))
+                    "connection: %d requests reached the application; %s" % (mid["before"], ncalls, ctx()))
     decl = (PROXY_DECL[0], PROXY_DECL[1]) if proxy_ok else None
     if proxy_ok:
         res.probes["proxy_line_accepted"] += 1
-    for k, env in enumerate(state.environs):
+    for k, env in enumerate(state.environs[env0:]):
         hs = [tuple(h) for h in case["reqs"][k]]
         ex = trust_ref.expect(peer, c, hs, decl)
         tr = "trusted" if ex["trusted"] else "untrusted"
@@ -172,12 +196,12 @@ def run(case, choices):
             if len(names) > 1 and not (ex["trusted"] and any(("_" in n) for n in names)):
                 res.violate("C08:%s:ambiguous-mapping:%s:%d" % (fam, tr, k),
                             "request %d: %s=%r merges differently spelled header names %r; %s" % (k, key, val, sorted(names), ctx()))
-    res.nontrivial = state.calls > 0
+    res.nontrivial = ncalls > 0
     res.from_log(log)
-    res.shape = h64(data, peer, sorted((k, repr(v)) for k, v in c.items()), fam)
-    res.states.add(h64(fam, state.calls, proxy_ok, trust_ref.ip_allowed(peer, c["forwarded_allow_ips"]), c["header_map"]))
+    res.shape = h64(data, peer, prev, sorted((k, repr(v)) for k, v in c.items()), fam)
+    res.states.add(h64(fam, ncalls, proxy_ok, trust_ref.ip_allowed(peer, c["forwarded_allow_ips"]), c["header_map"]))
     res.sample = {"family": fam, "peer": case["peer"], "cfg": c, "proxy_line": case["proxy_line"], "requests": case["reqs"][:2],
-                  "application_calls": state.calls}
+                  "application_calls": ncalls, "prev": prev}
     return res
 
 
